@@ -462,10 +462,12 @@ fn walk_owned(o: &OwnedLazyValue, s: &mut String) {
 pub fn run_c13(out: &mut Out, tier: &str, seed: u64) {
     let mut rng = Rng::new(seed);
     let ndocs = if tier == "thorough" { 10000 } else { 1200 };
-    let cfg = Cfg { dup_free: true, ..Cfg::default() };
-    for _ in 0..ndocs {
-        let gt = gen::gen_doc(&mut rng, &cfg);
-        let doc = gen::render_doc(&gt, &mut rng, &cfg);
+    let (cfg0, cfgd) = (Cfg { dup_free: true, ..Cfg::default() }, Cfg { dup_free: false, ..Cfg::default() });
+    for i in 0..ndocs {
+        // one document in three may repeat member names (get answers with the first occurrence)
+        let cfg = if i % 3 == 2 { &cfgd } else { &cfg0 };
+        let gt = gen::gen_doc(&mut rng, cfg);
+        let doc = gen::render_doc(&gt, &mut rng, cfg);
         let mut paths = Vec::new();
         gen::all_paths(&gt, &mut Vec::new(), &mut paths);
         for _ in 0..paths.len().min(5) {
